@@ -330,6 +330,9 @@ def gen_targets(seed: int, tier: dict, pools) -> list[dict]:
             member_idx = gen_member[i]
             if r.sub("node-meta").chance(0.35):
                 m["node_meta"] = True
+            # the same member in another floating-point precision (constants matched by value are then compared in that type)
+            if r.sub("retype").chance(0.4 if f in ("gen:gelu", "gen:hardswish", "gen:rms_norm", "gen:layer_norm", "gen:conv_affine") else 0.1):
+                m["retype"] = r.sub("retype-kind").choice(["FLOAT16", "FLOAT16", "BFLOAT16", "DOUBLE"])
         elif i < len(gen_slots) + len(script_slots):
             f, fn, src = script_slots[i - len(gen_slots)]
             m = {"pool": "script", "src": src, "fn": fn, "family": "script:" + f}
